@@ -3,7 +3,8 @@
   Pure: `dispatch : String → String`.
 -/
 import DnsModel.Dump
-import DnsModel.Renamer
+import DnsModel.Script
+import DnsModel.Synth
 namespace Dns
 
 /-- cursor script: `set n`, `inc n`, `rdlen`, `ednsrdlen` — one result per step, then the offset -/
@@ -22,6 +23,61 @@ def cursorSteps (p : Bytes) : List String → Sector → List String → String
   | "ednsrdlen" :: rest, s, acc =>
     cursorSteps p rest s ((fmtRes toString (Sector.ednsRrRdlen p s)).replace " " ":" :: acc)
   | _ :: _, _, _ => "bad-op"
+
+def secOfTag (t : String) : Option (Section × Bool) :=
+  match t with
+  | "Q" => some (.question, false) | "A" => some (.answer, false) | "N" => some (.nameServers, false)
+  | "R" => some (.additional, false) | "O" => some (.additional, true) | "E" => some (.edns, false)
+  | _ => none
+
+def parseOp : List String → Option Op
+  | ["settid", n] => n.toNat?.map (fun n => .setTid (n % 65536))
+  | ["setflags", n] => n.toNat?.map (fun n => .setFlags (n % 4294967296))
+  | ["setopcode", n] => n.toNat?.map (fun n => .setOpcode (n % 256))
+  | ["setrcode", n] => n.toNat?.map (fun n => .setRcode (n % 256))
+  | ["setresponse", n] => n.toNat?.map (fun n => .setResponse (n != 0))
+  | ["open", t] => (secOfTag t).map (fun (s, incl) => .openSec s incl)
+  | ["next"] => some .next
+  | ["nextopt"] => some .nextOpt
+  | ["close"] => some .close
+  | ["setname", h] => (parseHex h).map .setName
+  | ["delete"] => some .delete
+  | ["ttl", n] => n.toNat?.map (fun n => .ttl (n % 4294967296))
+  | ["ip", h] => (parseHex h).map .ip
+  | ["ituncompress"] => some .itUncompress
+  | ["name"] => some .name
+  | ["insert", t, h] =>
+    match secOfTag t, parseHex h with
+    | some (s, _), some txt => some (.insert s (synth txt))
+    | _, _ => none
+  | ["insertq", h, t, c] =>
+    match parseHex h, t.toNat?, c.toNat? with
+    | some n, some t, some c => some (.insert .question (rrNewQuestion n t c))
+    | _, _, _ => none
+  | ["rename", t, s, sfx] =>
+    match parseHex t, parseHex s with
+    | some t, some s => some (.rename t s (sfx == "1"))
+    | _, _ => none
+  | ["recompute"] => some .recompute
+  | ["qcache"] => some .qcache
+  | _ => none
+
+def splitOps (ws : List String) : List (List String) :=
+  (ws.foldr (fun w (acc : List (List String)) =>
+    if w == ";" then [] :: acc else match acc with | [] => [[w]] | h :: t => (w :: h) :: t) [[]]).filter (· ≠ [])
+
+def runScriptLine (init : String) (ws : List String) : String :=
+  let st0 : Option (Res State) :=
+    if init.startsWith "empty:" then
+      ((init.drop 6).toNat?).map (fun tid => (PP.empty (tid % 65536)).bind (fun pp => .ok { pp := pp, cur := none }))
+    else (parseHex init).map (fun p => (parsePP p).bind (fun pp => .ok { pp := pp, cur := none }))
+  match st0 with
+  | none => "bad-init"
+  | some (.ok st) =>
+    let ops := (splitOps ws).map parseOp
+    if ops.any Option.isNone then "bad-op" else
+    String.intercalate " ; " (runScript st (ops.filterMap id) [])
+  | some r => "noparse " ++ fmtRes (fun _ => "") r
 
 def dispatchWords : List String → String
   | ["parse", h] =>
@@ -60,6 +116,15 @@ def dispatchWords : List String → String
         | .ok pp => fmtRes toHex (renameWithRawNames pp t s (sfx == "1"))
         | r => "noparse " ++ fmtRes (fun _ => "") r)
     | _, _, _ => "bad-hex"
+  | "script" :: init :: ws => runScriptLine init ws
+  | ["synth", h] =>
+    match parseHex h with
+    | some t => fmtRes toHex (synth t)
+    | none => "bad-hex"
+  | ["name2raw", h, z] =>
+    match parseHex h with
+    | some n => fmtRes toHex (rawNameFromStr n (if z == "." then none else parseHex z))
+    | none => "bad-hex"
   | ["iter", h] =>
     match parseHex h with
     | some p => (match parsePP p with
